@@ -13,7 +13,6 @@ NOT_APPLICABLE = {
     "C02": "acceptance is decided by pass 1/pass 2 over a Vec<Stmt> with HashMap<String,_> and BTreeMap: symbolic execution of SymbolTable::new on a 5-statement all-concrete AST (stack array, S-hash/S-upper stubs) did not finish in 600 s / 11 GB (DESIGN.md section 9); there is no public kernel below it",
     "C03": "needs the logos lexer + parser on symbolic text (3 symbolic bytes: symex out of memory, DESIGN.md section 1). A token-level variant (hook Parser::verif_from_tokens) would drive the Parse impls over a heap Vec<(Token, Span)> with String payloads - the heap-Vec limitation of section 9 - and would not carry the layout-insensitivity half of the property anyway; not built",
     "C04": "needs parse_ast / the lexer loop on arbitrary strings: symbolic execution runs out of memory for 3 symbolic bytes (DESIGN.md section 1)",
-    "C11": "multi-step executions of the OS routines (13+ steps per character; one symbolic step costs 13 M SAT variables / 8 min): out of reach within the caps (DESIGN.md section 5)",
     "C12": "compares whole program runs under two flag settings, incl. the OS exception messages (~400 steps each): out of reach (DESIGN.md section 5); single-step entry into the handlers is decided under C08",
     "C13": "run_while is a loop around step(): Kani has one unwinding bound per harness, and the harness's own bookkeeping loops need 11, so the run loop is unrolled 11 times with a full symbolic step each (2 x 20 GB, no verdict after 20 min in symex). The one-step core that run/step_over/step_out iterate is decided by C08; harness kept in kani/src/c13.rs, unregistered",
     "C17": "ObjectFile is a BTreeMap<u16, Vec<_>> + HashMap<String,_>: building a 1-block object and inserting one block (all keys concrete) did not finish symbolic execution in 300-600 s (B-tree node code, DESIGN.md section 9)",
@@ -134,17 +133,24 @@ PROPS["C34"] = dict(
     ],
 )
 PROPS["C33"] = dict(
-    level="model_checking", jobs=4,
+    level="model_checking", jobs=4, heavy_jobs=2,
     claim="Device level, inductive: from an arbitrary queue/buffer (<= 2 bytes) one keyboard or display access, with the buffer lock REALLY held by the harness or not (symbolic), changes the buffer only by popping the front byte on an uncontended effectful KBDR read / appending the written byte on an uncontended DDR write, reports readiness only when the access would succeed now, never duplicates, reorders or invents bytes.",
-    note="Decides the device half of the property. The program-level statement (a polling program still gets every byte exactly once when the lock is taken BETWEEN the ready check and the data access) is not implied by it; see DESIGN.md section 5 (C33) for what is claimed.",
+    note="Program level (P-step harnesses c33_getc_*): the built-in OS's GETC routine executed by the real simulator on concrete code with symbolic data, the keyboard lock really held during chosen instructions: a busy status poll makes the routine poll again and the byte is still delivered once; a lock held during the KBDR read delivers a stale byte and leaves the queued byte unconsumed - a limitation of the ready-then-read protocol, recorded as a known finding (known_findings.txt, DESIGN.md section 7). OUT/PUTS under contention are not decided (the condition codes become a symbolic expression and the steps explode). Stubs in the P-step harnesses: S-hub (default wiring KBSR/KBDR -> keyboard, DSR/DDR -> display instead of the heap port table), S-poll0 (no interrupt pending), S-obs, S-hash, S-swap, a 20-cell associative memory preloaded with the OS words (regenerated from /repo/src/os.asm on every run).",
     design_ref="DESIGN.md section 5 (C33)",
     bounds="queue/buffer length <= 2 symbolic bytes; one access (KBSR/KBDR read, effectful or not, any write, poll); unwind 6",
-    outside="multi-instruction OS polling loops (GETC/OUT/PUTS) under contention; queues longer than 2 (VecDeque/Vec operations are length-uniform)",
+    outside="OUT / PUTS / longer programs under contention; more than one failed status poll; queues longer than 2 (VecDeque/Vec operations are length-uniform)",
     assumptions=["Kani's sequential model of std::sync::RwLock atomics"],
     harnesses=[
         H("c33_keyboard_n0", bound="empty queue, one access", encodes=["BufferedKeyboard as ExternalDevice"]),
         H("c33_keyboard_n1", bound="1 symbolic byte queued, one access", encodes=["BufferedKeyboard as ExternalDevice"]),
         H("c33_keyboard_n2", encodes=["BufferedKeyboard as ExternalDevice", "DevWrapper<K, dyn KeyboardDevice>::{io_read,io_write,poll_interrupt}", "BufferedKeyboard::try_input", "RwLock::try_write"], bound="2 symbolic bytes queued, one access"),
+        H("c33_getc_data", module="pstep", stubbing=True, kani_args=_K_ARGS, needs_os=True, heavy=True, timeout=1500,
+          encodes=["Simulator::step_in (TRAP entry, LDI, BR, RTI on the built-in OS's TRAP_GETC)", "BufferedKeyboard", "RwLock"],
+          bound="GETC with 2 bytes queued; keyboard lock possibly held during the KBDR read (symbolic), status poll uncontended"),
+        H("c33_getc_poll", module="pstep", stubbing=True, kani_args=_K_ARGS, needs_os=True, heavy=True, timeout=1500,
+          encodes=["as c33_getc_data"], bound="GETC; lock held during the first status poll, free afterwards"),
+        H("c33_getc_poll_data", module="pstep", stubbing=True, kani_args=_K_ARGS, needs_os=True, heavy=True, timeout=2400,
+          encodes=["as c33_getc_data"], bound="GETC; lock held during the first status poll and possibly during the data read"),
         H("c33_display_access", encodes=["BufferedDisplay as ExternalDevice", "DevWrapper<D, dyn DisplayDevice>::{io_read,io_write}", "BufferedDisplay::try_output"], bound="buffer <= 2 bytes, one access"),
     ],
 )
@@ -297,3 +303,16 @@ PROPS["C26"] = dict(
     harnesses=[H("c26_span_list_constructors", stubbing=True, encodes=["err::ErrSpan::{first,iter,extend}", "From<Span>/<[Span;N]>/<&[Span]>/<Vec<Span>> for ErrSpan", "asm::AsmErr::new"], bound="0..=3 spans")],
 )
 
+
+PROPS["C11"] = dict(
+    level="model_checking", jobs=1,
+    claim="GETC only: TRAP x20 issued from user code with arbitrary register contents and two symbolic bytes queued, executed by the real simulator on the real OS routine (TRAP entry, LDI KBSR, BRzp, LDI KBDR, RTI - 5 instructions): R0 holds the first queued byte, exactly that byte is consumed, R1-R7, the whole PSR (condition codes, privilege, priority), the supervisor stack pointer, the frame depth and a user memory cell are as before.",
+    note="OUT, PUTS, PUTSP, IN and HALT are NOT decided: after `LDR R0` the condition codes are a symbolic expression, CBMC no longer sees the privilege bit as constant and every later step costs as much as a fully symbolic one (9 steps: out of memory). The claim is deliberately narrow. Stubs: S-hub, S-poll0, S-obs, S-hash, S-swap, 20-cell associative memory preloaded from the OS image regenerated from /repo/src/os.asm on every run.",
+    design_ref="DESIGN.md section 4 (C11)",
+    bounds="one execution of GETC (5 instructions), input queue of 2 symbolic bytes, no lock contention, default flags (virtual traps, non-strict); unwind 4",
+    outside="every other trap routine; empty queue (the routine spins); interrupts; strict mode; real traps",
+    assumptions=["S-hub: default device wiring (decided by C32)", "S-poll0: no interrupt pending", "OS image words precomputed natively by the real parser + assembler"],
+    harnesses=[H("c11_getc", module="pstep", stubbing=True, kani_args=_K_ARGS, needs_os=True, timeout=1500,
+                 encodes=["Simulator::step_in x5 on TRAP_GETC", "handle_interrupt / call_interrupt (TRAP entry)", "RTI", "BufferedKeyboard::{io_read}", "read_mem MMIO mirror"],
+                 bound="GETC, 2 queued bytes, no contention")],
+)
